@@ -242,6 +242,8 @@ class UnitResult:
         self.log_calls = 0
         self.unknown_forks = 0
         self.by_backend = {}
+        self.cross_stats = {}
+        self.witnesses = []
 
     def as_dict(self):
         return dict(self.__dict__)
@@ -309,6 +311,10 @@ def run_unit(unit):
         res.solver_s = ex.solver_s
         res.unknown_forks = ex.unknown_forks
         res.by_backend = dict(ex.by_backend)
+        res.cross_stats = dict(ex.cross_stats)
+        res.witnesses = list(ex.witnesses)
+        if ex.disagreements:
+            res.error = "back ends disagree (z3: unsat, cvc5: sat) on: %s" % ", ".join(sorted(set(ex.disagreements))[:10])
         res.files = dict(interp.files)
         res.interpreted = sorted(interp.interpreted)
         res.contracts_applied = sorted(interp.contracts_applied)
@@ -400,7 +406,7 @@ def replay_refines(unit, model):
         else:
             if not any(issubclass(out_b[1], k) for k in out_s[1]):
                 diff.append("exception class differs")
-        if not diff or out_b[0] == out_s[0]:
+        if (not diff or out_b[0] == out_s[0]) and (out_b[0] == "return" or unit.state_on_raise):
             for i, (o1, o2) in enumerate(zip(n1.objects, n2.objects)):
                 if hasattr(o1, "__dict__"):
                     if not values_equal(vars(o1), vars(o2)):
@@ -474,6 +480,10 @@ class NativeInterp:
 
     def iterate(self, it):
         return self._wrap(list, it)
+
+    def is_repo_class(self, cls):
+        mod = getattr(cls, "__module__", "") or ""
+        return mod == PACKAGE or mod.startswith(PACKAGE + ".")
 
 
 def replay_custom(unit, model):
